@@ -20,6 +20,12 @@ type c20Case struct {
 	Art     *c20Art     `json:"art,omitempty"`
 	Lay     *c20Lay     `json:"lay,omitempty"`
 	Copy    *c20Copy    `json:"copy,omitempty"`
+	// PathForm: how the designated directory is spelled to the code under test:
+	// "" absolute | "slash" absolute with trailing "/" | "rel" relative to the working
+	// directory (= G) | "reldot" "./"-relative.
+	PathForm string `json:"path_form,omitempty"`
+	// Ctx: "" live context | "cancelled" the context is already cancelled when the operation starts
+	Ctx string `json:"ctx,omitempty"`
 	// Classes are the hostile-string classes drawn for this case, as
 	// "<operation>|<class>" (evidence only; the verdict never reads them).
 	Classes []string `json:"classes,omitempty"`
@@ -28,7 +34,10 @@ type c20Case struct {
 type c20Extract struct {
 	Ents []c20TarEnt `json:"ents"`
 	Gzip bool        `json:"gzip,omitempty"`
-	Sub  string      `json:"sub,omitempty"` // extract into G/out/<sub> (pre-created) instead of G/out
+	Zstd bool        `json:"zstd,omitempty"`
+	// TarOpt passes archive.TarCompressGzip (a Tar() option that Extract accepts and ignores)
+	TarOpt bool   `json:"tar_opt,omitempty"`
+	Sub    string `json:"sub,omitempty"` // extract into G/out/<sub> (pre-created) instead of G/out
 	// ReadFile additionally runs blob.BTarReader.ReadFile(<name>) over the archive
 	ReadFile string `json:"read_file,omitempty"`
 	// Raw, when set, is the archive verbatim (native fuzzing only)
@@ -46,10 +55,14 @@ type c20Desc struct {
 	Title   string `json:"title,omitempty"` // org.opencontainers.image.title
 	NoTitle bool   `json:"no_title,omitempty"`
 	Unpack  bool   `json:"unpack,omitempty"` // io.deis.oras.content.unpack=true
+	// EmptyTitle: the title annotation is present with the empty string
+	EmptyTitle bool `json:"empty_title,omitempty"`
+	// Inline: the descriptor carries a data field (the real bytes, or arbitrary bytes next to a hostile digest)
+	Inline bool `json:"inline,omitempty"`
 }
 
 type c20Man struct {
-	Kind     string    `json:"kind"` // image | artifact | index
+	Kind     string    `json:"kind"` // image | artifact | index | ociartifact (blobs[]) | schema1 (fsLayers[])
 	Docker   bool      `json:"docker,omitempty"`
 	Config   c20Desc   `json:"config"`
 	Layers   []c20Desc `json:"layers,omitempty"`
@@ -61,6 +74,14 @@ type c20Blob struct {
 	Data string      `json:"data,omitempty"`
 	Tar  []c20TarEnt `json:"tar,omitempty"`
 	Gzip bool        `json:"gzip,omitempty"`
+	Zstd bool        `json:"zstd,omitempty"`
+}
+
+// c20Referrers is a referrers response for one subject (fallback tag and/or API).
+type c20Referrers struct {
+	Subject string    `json:"subject"` // "#k" or a literal digest
+	List    []c20Desc `json:"list"`
+	API     bool      `json:"api,omitempty"` // the registry also answers /referrers/<digest>
 }
 
 // c20Layout is the content of a layout directory / fake registry repository.
@@ -68,6 +89,9 @@ type c20Layout struct {
 	Blobs []c20Blob `json:"blobs,omitempty"`
 	Mans  []c20Man  `json:"mans,omitempty"`
 	Index []c20Desc `json:"index,omitempty"` // index.json entries
+	// Algo: "" sha256 | "sha512": digest algorithm of all content (blobs/<algo>/…)
+	Algo      string        `json:"algo,omitempty"`
+	Referrers *c20Referrers `json:"referrers,omitempty"`
 }
 
 type c20RefSpec struct {
@@ -89,12 +113,20 @@ type c20Op struct {
 	Body   string     `json:"body,omitempty"`
 	Flag   bool       `json:"flag,omitempty"` // op specific option (child / check-referrers / require-digest / with-desc)
 	Tag2   string     `json:"tag2,omitempty"`
+	// blob.put: how the content is handed over and what the descriptor says about it
+	Reader    string `json:"reader,omitempty"`   // "" bytes.Reader | blob (blob.Reader, same descriptor) | blob-nodesc | plain (no Seek)
+	SizeHow   string `json:"size_how,omitempty"` // "" as drawn | exact | off (by one)
+	Prefer512 bool   `json:"prefer512,omitempty"`
+	// manifest.get / manifest.head / referrer.list / image.copy: platform option
+	Platform bool `json:"platform,omitempty"`
 }
 
 type c20Lay struct {
 	Spec c20Layout `json:"spec"`
 	NoGC bool      `json:"no_gc,omitempty"`
-	Ops  []c20Op   `json:"ops"`
+	// Empty: the layout directory starts empty (no oci-layout, index.json, blobs)
+	Empty bool    `json:"empty,omitempty"`
+	Ops   []c20Op `json:"ops"`
 }
 
 type c20Copy struct {
@@ -109,6 +141,14 @@ type c20Copy struct {
 	DigTags bool       `json:"dig_tags,omitempty"` // ImageWithDigestTags
 	Force   bool       `json:"force,omitempty"`    // ImageWithForceRecursive
 	DstPop  bool       `json:"dst_pop,omitempty"`  // target layout already holds the valid content
+	// further library options of ImageCopy / ImageExport
+	Platforms bool `json:"platforms,omitempty"` // ImageWithPlatforms(linux/amd64)
+	Child     bool `json:"child,omitempty"`     // ImageWithChild
+	Fast      bool `json:"fast,omitempty"`      // ImageWithFastCheck
+	Callback  bool `json:"callback,omitempty"`  // ImageWithCallback / BlobWithCallback
+	ExportGz  bool `json:"export_gz,omitempty"` // ImageWithExportCompress
+	// HdrDig: the registry sends this (hostile) value as Docker-Content-Digest on every response
+	HdrDig string `json:"hdr_dig,omitempty"`
 }
 
 type c20Docker struct {
@@ -126,6 +166,8 @@ type c20Import struct {
 	OmitIndex  bool        `json:"omit_index,omitempty"`
 	Prefix     string      `json:"prefix,omitempty"` // "", "./", "/"
 	Gzip       bool        `json:"gzip,omitempty"`
+	Zstd       bool        `json:"zstd,omitempty"`
+	Reverse    bool        `json:"reverse,omitempty"` // blobs first, index.json and oci-layout last
 	Ref        c20RefSpec  `json:"ref"`
 	ImportName string      `json:"import_name,omitempty"`
 	DstPop     bool        `json:"dst_pop,omitempty"`
@@ -138,6 +180,13 @@ type c20Art struct {
 	StripDirs  bool      `json:"strip_dirs,omitempty"`
 	ConfigFile bool      `json:"config_file,omitempty"` // --config-file G/out/cfg.json
 	Filter     string    `json:"filter,omitempty"`      // --file <title>
+	// ArtMan is the number of the artifact manifest in Spec.Mans
+	ArtMan int `json:"art_man,omitempty"`
+	// Subject: regctl artifact get --subject <ref> (referrers lookup, then SetDigest of the first descriptor)
+	Subject  bool   `json:"subject,omitempty"`
+	Platform bool   `json:"platform,omitempty"` // --platform linux/amd64
+	FileMT   bool   `json:"file_mt,omitempty"`  // --file-media-type <layer media type>
+	HdrDig   string `json:"hdr_dig,omitempty"`
 }
 
 // ----------------------------------------------------------------- generators
@@ -180,7 +229,11 @@ var c20HexA = strings.Repeat("a", 64)
 
 // hostilePath draws one string from the hostile name grammar and its class.
 func (g *c20Gen) hostilePath() (string, string) {
-	switch g.pick("pathkind", 16) {
+	switch g.pick("pathkind", 17) {
+	case 16:
+		// longer than the 100 byte ustar name field: the ../ part travels in the prefix field
+		// (or a PAX / GNU long-name record), the decoy name in the name field
+		return strings.Repeat("../", g.ups()) + strings.Repeat("p", g.pick("splitlen", 3)+97) + "/../" + g.tail(), "ustar-split"
 	case 0:
 		return g.from("benign", "a.txt", "d/e.txt", "x", "dir2/", "f.tar", "sub/deep/er/file", "ctl"), "benign"
 	case 1, 2, 3:
@@ -272,7 +325,7 @@ func (g *c20Gen) digest(op string, nmans, nblobs int) string {
 	case 14:
 		// exactly as many ../ as it takes to leave <layout>/blobs/<alg>/ for the guard directory
 		g.note(op, "dig:enc-exact")
-		return "sha256:../../../" + g.tail()
+		return g.from("exactalg", "sha256", "sha256", "sha512", "sha384") + ":../../../" + g.tail()
 	case 15:
 		g.note(op, "dig:alg-exact")
 		return g.from("algexact", "../..:", "sha256/../../..:", "../../victimdir/..:") + g.tail()
@@ -368,7 +421,7 @@ func (g *c20Gen) refSpec(op string, nmans, nblobs int) c20RefSpec {
 
 func (g *c20Gen) tarEnt(op string) c20TarEnt {
 	e := c20TarEnt{}
-	e.Type = g.from("type", "reg", "reg", "reg", "reg", "dir", "dir", "sym", "sym", "hard", "hard", "char", "block", "fifo", "rega", "cont")
+	e.Type = g.from("type", "reg", "reg", "reg", "reg", "dir", "dir", "sym", "sym", "hard", "hard", "char", "block", "fifo", "rega", "cont", "xglobal")
 	e.Name = g.path(op + ":name:" + e.Type)
 	if e.Type == "dir" && g.chance("dirslash", 2) && !strings.HasSuffix(e.Name, "/") {
 		e.Name += "/"
@@ -381,7 +434,7 @@ func (g *c20Gen) tarEnt(op string) c20TarEnt {
 			e.Link = g.path(op + ":link:" + e.Type)
 		}
 	case "reg", "rega", "cont":
-		e.Size = rapid.SampledFrom([]int{0, 1, 9, 40, 600}).Draw(g.t, "size")
+		e.Size = rapid.SampledFrom([]int{0, 1, 9, 40, 600, 511, 512, 513, 32769}).Draw(g.t, "size")
 	}
 	e.Mode = rapid.SampledFrom([]int64{0o644, 0o755, 0o777, 0, 0o4755, 0o1777, 0o200}).Draw(g.t, "mode")
 	e.Fmt = g.from("fmt", "pax", "pax", "gnu", "ustar", "raw")
@@ -408,7 +461,11 @@ func (g *c20Gen) tarEnts(op string, min, max int) []c20TarEnt {
 }
 
 func (g *c20Gen) extract() *c20Extract {
-	x := &c20Extract{Ents: g.tarEnts("extract", 1, 6), Gzip: g.chance("gz", 4)}
+	x := &c20Extract{Ents: g.tarEnts("extract", 1, 6), Gzip: g.chance("gz", 4), TarOpt: g.chance("taropt", 6)}
+	if !x.Gzip && g.chance("zstd", 5) {
+		x.Zstd = true
+		g.note("dim", "compress:zstd")
+	}
 	if g.chance("sub", 4) {
 		x.Sub = "dir"
 	}
@@ -432,6 +489,10 @@ func (g *c20Gen) desc(op string, nmans, nblobs int, hostileOneIn int) c20Desc {
 		d.Dig = rapid.SampledFrom(xs).Draw(g.t, "vdesc")
 		g.note(op, "dig:valid")
 	}
+	if g.embedded && g.chance("inline", 8) {
+		d.Inline = true
+		g.note("dim", "desc:inline-data")
+	}
 	return d
 }
 
@@ -440,17 +501,25 @@ func (g *c20Gen) layout(op string, hostileOneIn int) c20Layout {
 	var l c20Layout
 	g.embedded = true
 	defer func() { g.embedded = false }()
+	if g.chance("algo512", 5) {
+		l.Algo = "sha512"
+		g.note("dim", "algo:sha512")
+	}
 	nb := g.pick("nblobs", 3)
 	for i := 0; i < nb; i++ {
 		l.Blobs = append(l.Blobs, c20Blob{Data: "c20-extra-blob-" + string(rune('0'+i))})
 	}
 	nm := rapid.IntRange(1, 4).Draw(g.t, "nmans")
 	for i := 0; i < nm; i++ {
-		m := c20Man{Kind: g.from("mkind", "image", "image", "artifact", "index")}
+		m := c20Man{Kind: g.from("mkind", "image", "image", "artifact", "index", "image", "index", "ociartifact", "schema1")}
 		if i == 0 && m.Kind == "index" {
 			m.Kind = "image"
 		}
 		m.Docker = g.chance("docker", 5)
+		if m.Kind == "ociartifact" || m.Kind == "schema1" {
+			m.Docker = false
+			g.note("dim", "mankind:"+m.Kind)
+		}
 		switch m.Kind {
 		case "index":
 			nc := rapid.IntRange(1, 3).Draw(g.t, "nchildren")
@@ -471,7 +540,7 @@ func (g *c20Gen) layout(op string, hostileOneIn int) c20Layout {
 				m.Layers = append(m.Layers, g.desc(op+":layer", i, nb, hostileOneIn))
 			}
 		}
-		if g.chance("subject", 3) {
+		if m.Kind != "schema1" && g.chance("subject", 3) {
 			s := c20Desc{MT: c20MTManifest}
 			if i > 0 && g.chance("validsubject", 2) {
 				s.Dig = "#" + string(rune('0'+g.pick("subjk", i)))
@@ -493,7 +562,7 @@ func (g *c20Gen) layout(op string, hostileOneIn int) c20Layout {
 		n := rapid.IntRange(1, 2).Draw(g.t, "nhostileidx")
 		for i := 0; i < n; i++ {
 			e := c20Desc{Dig: g.digest(op+":index.json", nm, nb), MT: g.from("idxmt", c20MTManifest, c20MTIndex, "", c20MTLayer),
-				Tag: g.from("idxtag", "evil", "evil", "v1", "", "latest")}
+				Tag: g.from("idxtag", "evil", "evil", "v1", "", "latest", "docker.io/library/x:evil", "localhost:5000/c20/x:v1")}
 			if g.chance("idxtaghostile", 4) {
 				e.Tag = g.tag(op + ":index.json")
 			}
@@ -503,6 +572,20 @@ func (g *c20Gen) layout(op string, hostileOneIn int) c20Layout {
 				l.Index = append(l.Index, e)
 			}
 		}
+	}
+	// a referrers response (fallback tag, on a registry optionally the API) for one manifest
+	if g.chance("referrers", 3) {
+		r := &c20Referrers{Subject: "#" + string(rune('0'+g.pick("refsubj", nm))), API: g.chance("refapi", 2)}
+		n := rapid.IntRange(1, 3).Draw(g.t, "nreferrers")
+		for i := 0; i < n; i++ {
+			if g.chance("hostilereferrer", 2) {
+				r.List = append(r.List, c20Desc{Dig: g.digest(op+":referrer", nm, nb), MT: c20MTManifest})
+			} else {
+				r.List = append(r.List, c20Desc{Dig: "#" + string(rune('0'+g.pick("refk", nm)))})
+			}
+		}
+		l.Referrers = r
+		g.note("dim", "referrers:list")
 	}
 	return l
 }
@@ -522,14 +605,22 @@ func (g *c20Gen) op(nmans, nblobs int) c20Op {
 		}
 	case "blob.put":
 		o.Desc = g.desc(o.Op+":desc", nmans, nblobs, 1)
-		o.Body = g.from("body", "c20-put-body", "", "c20-put-body-two")
+		o.Body = g.from("body", "c20-put-body", "", "c20-put-body-two", strings.Repeat("c20-32k-", 4097))
 		if g.chance("nodesc", 4) {
 			o.Desc = c20Desc{}
 		}
+		o.Reader = g.from("reader", "", "blob", "blob", "blob-nodesc", "plain")
+		o.SizeHow = g.from("sizehow", "", "", "exact", "off")
+		o.Prefer512 = g.chance("prefer512", 5)
+		g.note("dim", "blobput-reader:"+o.Reader)
 	case "manifest.get", "manifest.head":
 		o.Flag = g.chance("flag", 2)
 		if o.Flag {
 			o.Desc = g.desc(o.Op+":withdesc", nmans, nblobs, 1)
+		}
+		if g.chance("platform", 4) {
+			o.Platform = true
+			g.note("dim", "opt:manifest-platform")
 		}
 	case "manifest.put":
 		o.Man = "#" + string(rune('0'+g.pick("mank", nmans)))
@@ -550,12 +641,26 @@ func (g *c20Gen) op(nmans, nblobs int) c20Op {
 	case "image.copy":
 		o.Tag2 = g.tag(o.Op + ":tgt")
 		o.Flag = g.chance("refs", 2)
+		o.Platform = g.chance("platform", 4)
+	case "referrer.list":
+		o.Flag = g.chance("refsource", 3)
+		o.Platform = g.chance("platform", 4)
+		if g.chance("sortannot", 4) {
+			o.Tag2 = g.from("sortannot", "preference", "org.opencontainers.image.created", "../../victim")
+		}
+		if o.Flag || o.Platform || o.Tag2 != "" {
+			g.note("dim", "opt:referrer-opts")
+		}
 	}
 	return o
 }
 
 func (g *c20Gen) lay() *c20Lay {
 	l := &c20Lay{Spec: g.layout("layout", 4), NoGC: g.chance("nogc", 4)}
+	if g.chance("emptylayout", 10) {
+		l.Empty = true
+		g.note("dim", "layout:empty-dir")
+	}
 	n := rapid.IntRange(1, 5).Draw(g.t, "nops")
 	for i := 0; i < n; i++ {
 		l.Ops = append(l.Ops, g.op(len(l.Spec.Mans), len(l.Spec.Blobs)))
@@ -592,6 +697,20 @@ func (g *c20Gen) copy() *c20Copy {
 	c.DigTags = g.chance("digtags", 3)
 	c.Force = g.chance("force", 3)
 	c.DstPop = g.chance("dstpop", 3)
+	c.Platforms = g.chance("platforms", 5)
+	c.Child = g.chance("child", 6)
+	c.Fast = g.chance("fast", 5)
+	c.Callback = g.chance("callback", 4)
+	c.ExportGz = g.chance("exportgz", 3)
+	if c.Platforms || c.Child || c.Fast || c.Callback {
+		g.note("dim", "opt:copy-more-options")
+	}
+	if c.Src == "reg" && g.chance("hdrdig", 4) {
+		g.embedded = true
+		c.HdrDig = g.digest(op+":header-digest", nm, nb)
+		g.embedded = false
+		g.note("dim", "registry:hostile-digest-header")
+	}
 	return c
 }
 
@@ -631,6 +750,14 @@ func (g *c20Gen) imp() *c20Import {
 		im.ImportName = g.tag("import:name")
 	}
 	im.DstPop = g.chance("dstpop", 4)
+	if g.chance("reverse", 3) {
+		im.Reverse = true
+		g.note("dim", "import:members-reversed")
+	}
+	if !im.Gzip && g.chance("zstd", 6) {
+		im.Zstd = true
+		g.note("dim", "compress:zstd")
+	}
 	return im
 }
 
@@ -646,7 +773,25 @@ func (g *c20Gen) importPath(op string) string {
 func (g *c20Gen) art() *c20Art {
 	a := &c20Art{Src: g.from("src", "reg", "reg", "ocidir"), Tag: "t", StripDirs: g.chance("strip", 2), ConfigFile: g.chance("cfgfile", 6)}
 	var l c20Layout
+	if g.chance("algo512", 6) {
+		l.Algo = "sha512"
+		g.note("dim", "algo:sha512")
+	}
+	a.Subject = g.chance("subjectroute", 4)
+	if a.Subject {
+		// the subject image comes first so that the artifact can name it
+		l.Mans = append(l.Mans, c20Man{Kind: "image", Config: c20Desc{Dig: "$C"}, Layers: []c20Desc{{Dig: "$L1"}}})
+		a.ArtMan = 1
+		g.note("dim", "artifact:subject-route")
+	}
 	m := c20Man{Kind: "artifact", Config: c20Desc{Dig: "$E"}}
+	if g.chance("ociartifact", 6) {
+		m.Kind = "ociartifact"
+		g.note("dim", "mankind:ociartifact")
+	}
+	if a.Subject {
+		m.Subject = &c20Desc{Dig: "#0"}
+	}
 	if g.chance("hostilecfg", 6) {
 		m.Config = c20Desc{Dig: g.digest("artifact:config", 0, 0)}
 	}
@@ -658,33 +803,68 @@ func (g *c20Gen) art() *c20Art {
 		if a.StripDirs {
 			op = "artifact+strip"
 		}
-		switch g.pick("titlekind", 8) {
+		switch g.pick("titlekind", 9) {
 		case 0:
 			d.NoTitle = true
 			g.note(op+":title", "absent")
+		case 1:
+			d.EmptyTitle = true
+			g.note(op+":title", "empty")
 		default:
 			d.Title = g.path(op + ":title")
 		}
 		d.Unpack = g.chance("unpack", 3)
 		if d.Unpack || strings.HasSuffix(d.Title, "/") || g.chance("tarblob", 4) {
 			uop := op + ":unpack"
-			b = c20Blob{Tar: g.tarEnts(uop, 1, 4), Gzip: g.chance("gz", 2)}
+			b = c20Blob{Tar: g.tarEnts(uop, 1, 4)}
+			switch g.pick("blobcomp", 5) {
+			case 0, 1:
+				b.Gzip = true
+			case 2:
+				b.Zstd = true
+				g.note("dim", "compress:zstd")
+			}
 		}
 		if g.chance("hostilelayerdig", 8) {
 			d.Dig = g.digest(op+":layerdigest", 0, nl)
+		}
+		if g.chance("inline", 10) {
+			d.Inline = true
+			g.note("dim", "desc:inline-data")
 		}
 		l.Blobs = append(l.Blobs, b)
 		m.Layers = append(m.Layers, d)
 	}
 	l.Mans = append(l.Mans, m)
-	top := "#0"
-	if g.chance("index", 4) {
-		l.Mans = append(l.Mans, c20Man{Kind: "index", Children: []c20Desc{{Dig: "#0"}}})
-		top = "#1"
+	art := "#" + string(rune('0'+a.ArtMan))
+	top := art
+	if !a.Subject && g.chance("index", 4) {
+		l.Mans = append(l.Mans, c20Man{Kind: "index", Children: []c20Desc{{Dig: art}}})
+		top = "#" + string(rune('0'+a.ArtMan+1))
+		a.Platform = g.chance("platform", 2)
+	}
+	if a.Subject {
+		top = "#0"
+		r := &c20Referrers{Subject: "#0", API: g.chance("refapi", 2)}
+		// the first descriptor of the response is the one regctl sets as digest on the reference
+		if g.chance("hostilereferrer", 2) {
+			g.embedded = true
+			r.List = append(r.List, c20Desc{Dig: g.digest("artifact:referrer-digest", 0, nl), MT: c20MTManifest})
+			g.embedded = false
+		}
+		r.List = append(r.List, c20Desc{Dig: art})
+		l.Referrers = r
 	}
 	l.Index = []c20Desc{{Dig: top, Tag: a.Tag}}
 	if g.chance("filter", 8) {
 		a.Filter = m.Layers[0].Title
+	}
+	a.FileMT = g.chance("filemt", 8)
+	if a.Src == "reg" && g.chance("hdrdig", 5) {
+		g.embedded = true
+		a.HdrDig = g.digest("artifact:header-digest", 0, nl)
+		g.embedded = false
+		g.note("dim", "registry:hostile-digest-header")
 	}
 	a.Spec = l
 	return a
@@ -705,6 +885,14 @@ func c20GenCase(t *rapid.T) c20Case {
 		c.Surface, c.Copy = "copy", g.copy()
 	default:
 		c.Surface, c.Import = "import", g.imp()
+	}
+	c.PathForm = g.from("pathform", "", "", "", "", "slash", "rel", "reldot")
+	if c.PathForm != "" {
+		g.note("dim", "pathform:"+c.PathForm)
+	}
+	if c.Surface != "extract" && c.Surface != "artifact" && g.chance("cancelled", 10) {
+		c.Ctx = "cancelled"
+		g.note("dim", "ctx:cancelled")
 	}
 	c.Classes = g.classes
 	return c
